@@ -287,6 +287,11 @@ func (s *Session) setStorageCallbacks() {
 			return true
 		}
 
+		if !s.IsLogged() {
+			s.RejectMessage(data)
+			return true
+		}
+
 		resendMessages, err := s.messageStorage.Messages(fix.StorageID{
 			Sender: s.LogonSettings.SenderCompID,
 			Target: s.LogonSettings.TargetCompID,
